@@ -6,11 +6,12 @@ import json, os, sys
 ROOT = os.path.dirname(os.path.dirname(os.path.abspath(__file__)))
 props = [json.loads(l) for l in open(os.path.join(ROOT, "properties.jsonl"))]
 not_claimed = json.load(open(os.path.join(ROOT, "tools", "not_claimed.json")))
+accepted = set(json.load(open(os.path.join(ROOT, "tools", "accepted.json"))))   # ids reviewed and accepted into the manifest
 checks, na = [], []
 for p in props:
     pid = p["id"]
     mp = os.path.join(ROOT, "checks", pid, "meta.json")
-    if os.path.exists(mp) and os.path.exists(os.path.join(ROOT, "checks", pid, "check.py")):
+    if pid in accepted and os.path.exists(mp) and os.path.exists(os.path.join(ROOT, "checks", pid, "check.py")):
         m = json.load(open(mp))
         checks.append({
             "property_id": pid,
